@@ -25,6 +25,7 @@ import (
 	"sort"
 	"strconv"
 	"strings"
+	"sync"
 	"time"
 
 	"github.com/gofiber/fiber/v3"
@@ -389,7 +390,8 @@ func (s *site) handle(c fiber.Ctx) error {
 func (s *site) observe(c fiber.Ctx) {
 	o := &probeObs{seen: true, full: map[string]string{}}
 	for _, n := range c.Route().Params {
-		o.params = append(o.params, c.Params(n))
+		// without Immutable the value is only valid until the handler returns: keep a private copy
+		o.params = append(o.params, strings.Clone(c.Params(n)))
 	}
 	for _, m := range c.Redirect().Messages() {
 		o.msgs = append(o.msgs, fmtMsg(m.Key, m.Value, m.Level, false))
@@ -667,27 +669,24 @@ func lastResponse(out []byte) (*response, bool) {
 
 const probeID = 999
 
-var debugNoResp = false
-
-// run serves hist then probe; returns the probe's P, its full vector and its canonical response.
-func run(mode int, hist []request, probe request) (string, map[string]string) {
-	s := newSite()
+// serveSeq serves hist then probe on connections with local port lport (mode 0: one connection per
+// request; mode 1: keep-alive pipelining, a malformed request ends its connection) and returns the
+// bytes of the connection the probe was on.
+func (s *site) serveSeq(mode int, hist []request, probe request, idBase, lport int) []byte {
 	all := append(append([]request{}, hist...), probe)
 	ids := make([]int, len(all))
-	for i, q := range all {
-		ids[i] = i
+	for i := range all {
+		ids[i] = idBase + i
 		if i == len(all)-1 {
 			ids[i] = probeID // the probe carries the same id after a history and on the fresh app
 		}
-		s.scripts[ids[i]] = q.script
 	}
 	var out []byte
 	if mode == 1 {
-		// keep-alive: consecutive well-formed requests share a connection; a malformed one ends it
 		var buf bytes.Buffer
 		flush := func() {
 			if buf.Len() > 0 {
-				out = s.serveConn(buf.Bytes())
+				out = s.serveConn(buf.Bytes(), lport)
 				buf.Reset()
 			}
 		}
@@ -697,28 +696,81 @@ func run(mode int, hist []request, probe request) (string, map[string]string) {
 				flush()
 			}
 		}
-		if probe.bad == 0 {
-			flush()
-		}
+		flush()
 	} else {
 		for i, q := range all {
-			out = s.serveConn(q.wire(ids[i]))
+			out = s.serveConn(q.wire(ids[i]), lport)
 		}
 	}
-	resp, ok := lastResponse(out)
-	if !ok {
-		if debugNoResp {
-			fmt.Printf("NORESPONSE mode=%d out=%q\n", mode, out)
-		}
-		return "noresponse", nil
-	}
-	return s.renderP(resp), s.fullOf(resp)
+	return out
 }
 
-func (s *site) fullOf(resp *response) map[string]string {
+func (s *site) setScripts(hist []request, probe request, idBase int) {
+	for i, q := range hist {
+		s.scripts[idBase+i] = q.script
+	}
+	s.scripts[probeID] = probe.script
+}
+
+// run serves hist then probe; returns the probe's P and its full vector.
+// mode 2: the concurrent mix - four workers serve the same history and probe at the same time
+// (GOMAXPROCS 4) against ONE app, so pooled contexts and Redirect objects travel between them; every
+// worker's probe must observe the same; a deviating worker's observation is the one reported.
+func run(mode int, hist []request, probe request) (string, map[string]string) {
+	s := newSite()
+	if mode != 2 {
+		s.setScripts(hist, probe, 0)
+		out := s.serveSeq(mode, hist, probe, 0, 80)
+		resp, ok := lastResponse(out)
+		if !ok {
+			return "noresponse", nil
+		}
+		return s.renderP(resp, 80), s.fullOf(resp, 80)
+	}
+	const workers = 4
+	for w := 0; w < workers; w++ {
+		s.setScripts(hist, probe, 1000*(w+1))
+	}
+	prev := runtime.GOMAXPROCS(workers)
+	outs := make([][]byte, workers)
+	var wg sync.WaitGroup
+	for w := 0; w < workers; w++ {
+		wg.Add(1)
+		go func(w int) {
+			defer wg.Done()
+			outs[w] = s.serveSeq(w%2, hist, probe, 1000*(w+1), 81+w)
+		}(w)
+	}
+	wg.Wait()
+	runtime.GOMAXPROCS(prev)
+	var p0 string
+	var f0 map[string]string
+	for w := 0; w < workers; w++ {
+		resp, ok := lastResponse(outs[w])
+		if !ok {
+			return "noresponse", nil
+		}
+		p, f := s.renderP(resp, 81+w), s.fullOf(resp, 81+w)
+		if w == 0 {
+			p0, f0 = p, f
+			continue
+		}
+		if p != p0 {
+			return p, f
+		}
+		for k, v := range f {
+			if f0[k] != v {
+				f0[k] = f0[k] + "|" + v // surfaces as a full-vector difference against the fresh app
+			}
+		}
+	}
+	return p0, f0
+}
+
+func (s *site) fullOf(resp *response, lport int) map[string]string {
 	full := map[string]string{}
-	if s.obs != nil {
-		for k, v := range s.obs.full {
+	if o := s.obsBy[lport]; o != nil {
+		for k, v := range o.full {
 			full[k] = v
 		}
 	}
@@ -855,7 +907,7 @@ func list(xs []string) string {
 }
 
 // renderP: the canonical modelled observation.
-func (s *site) renderP(resp *response) string {
+func (s *site) renderP(resp *response, lport int) string {
 	sc := "none"
 	for _, h := range resp.headers {
 		if !strings.EqualFold(h.k, "Set-Cookie") || !strings.HasPrefix(h.v, fiber.FlashCookieName+"=") {
@@ -883,7 +935,7 @@ func (s *site) renderP(resp *response) string {
 		}
 	}
 	pk := func(k string) string { v, _ := resp.peek(k); return v }
-	o := s.obs
+	o := s.obsBy[lport]
 	if o == nil {
 		o = &probeObs{}
 	}
@@ -1127,7 +1179,7 @@ func main() {
 	defer w.Close()
 	if o.Replay != "" {
 		for _, f := range gen.ReplayInputs(o.Replay) {
-			if len(f) < 4 || (f[1] != "0" && f[1] != "1") {
+			if len(f) < 4 || (f[1] != "0" && f[1] != "1" && f[1] != "2") {
 				continue
 			}
 			bad := false
@@ -1147,10 +1199,7 @@ func main() {
 				w.Case(f[0], f[1], f[2], f[3], "invalid", "-", "invalid")
 				continue
 			}
-			mode := 0
-			if f[1] == "1" {
-				mode = 1
-			}
+			mode, _ := strconv.Atoi(f[1])
 			emit(w, f[0], mode, hist, probe)
 		}
 		return
@@ -1164,6 +1213,9 @@ func main() {
 		}
 		probe := genRequest(r, true)
 		mode := r.Intn(2)
+		if (o.Tier == "thorough" && r.Chance(1, 4)) || r.Chance(1, 40) {
+			mode = 2 // concurrent mix
+		}
 		w.Count(fmt.Sprintf("hist=%d", len(hist)))
 		w.Count("mode=" + strconv.Itoa(mode))
 		if probe.hasFlash {
